@@ -2,6 +2,8 @@ pub mod query;
 pub mod readq;
 pub mod rt;
 pub mod rtree;
+pub mod sched;
+pub mod tfb;
 pub mod zoom;
 
 use crate::proto::Tier;
@@ -11,6 +13,10 @@ use std::path::Path;
 pub fn special(cmd: &str, _seed: u64, tier: Tier, _scratch: &Path, _arg: &str) -> Option<i32> {
     match cmd {
         "readq" => Some(readq::run(_arg)),
+        "c12x-count" => {
+            println!("{}", tfb::histories(tier).len());
+            Some(0)
+        }
         "c05-count" => {
             println!("{}", rtree::shapes(tier).len());
             Some(0)
